@@ -7,11 +7,12 @@ The layouts are regenerated from the packet declarations on every run; `all_wf` 
 vector kinds carry exactly one `calc`ed count, variable texts are 4-aligned); the round-trip theorems
 are proved once for every well-formed layout and every in-domain value.
 
-Proved scope (stated honestly): fixed-size kinds and kinds with a counted vector of flat elements
-(`RepBody`), through the real framing in both size modes. The two set-valued kinds (MAL, IPB), the
-until-end-of-frame texts (III MTC BTN ACR), the hand-written MSO body and the 8-byte `GameVersion`
-text in VER are *not* covered by these theorems; for them the tie is the correspondence run and the
-implementation-side oracle only.
+Proved scope (stated honestly): every kind whose body is declared (`RepBody`): fixed-size kinds, kinds
+with a counted vector of flat elements, the two set-valued kinds (MAL, IPB: in-domain sets are
+duplicate-free, as the crate's `IndexSet` keeps them) and the until-end-of-frame texts (III MTC BTN
+ACR: NUL-free text within the maximum), through the real framing in both size modes. The hand-written
+MSO body and the 8-byte `GameVersion` text in VER are *not* covered by these theorems; for them the tie
+is the correspondence run and the implementation-side oracle only.
 -/
 namespace Insim.Props.C01
 open Insim Insim.Layout Insim.Frame
@@ -116,5 +117,15 @@ example : RepBody CRep Gen.Packets.lTiny { vals := [.n 2, .n 3], tail := .none }
   refine ⟨?_, trivial, trivial⟩
   simp [Gen.Packets.lTiny, RepFields, RepAny, RepTy, arity, maxvOk, memN]
 example : writePacket genEnv Gen.Packets.lTiny { vals := [.n 2, .n 3], tail := .none } = .ok [3, 2, 3] := by decide +kernel
+
+/-- a MAL with two mods and an MTC with a five-character text are in the domain too -/
+example : RepBody CRep Gen.Packets.lMal { vals := [.n 1, .n 2, .n 0], tail := .set [0x123456, 0xABCDEF] } := by
+  refine ⟨?_, by simp [Gen.Packets.lMal, tailCount], ?_⟩
+  · simp [Gen.Packets.lMal, RepFields, RepAny, RepTy, arity, maxvOk, tailCount]
+  · refine ⟨by intro x hx; simp at hx; rcases hx with rfl | rfl <;> decide, by decide⟩
+example : RepBody CRep Gen.Packets.lMtc { vals := [.n 1, .n 0, .n 2, .n 3], tail := .text [104, 101, 108, 108, 111] } := by
+  refine ⟨?_, trivial, ?_⟩
+  · simp [Gen.Packets.lMtc, RepFields, RepAny, RepTy, arity, maxvOk, memN, tailCount]
+  · exact ⟨by decide, by decide⟩
 
 end Insim.Props.C01
